@@ -54,7 +54,9 @@ func verifDefaults() http.Header {
 func verif_harness_C14_http_independence() {
 	hdr := verifDefaults()
 	hdrSnap := verifHeaderSnapshot(hdr)
-	doc := "GET http://a/\nK: one\n\nGET http://b/\nK: two\nX: y\n\nGET http://c/\n"
+	// the second target also has a header whose key differs from a default's
+	// only in letter case: it is a key of its own, spelled as written
+	doc := "GET http://a/\nK: one\n\nGET http://b/\nK: two\nX: y\nk: lower\n\nGET http://c/\n"
 	tr := NewHTTPTargeter(strings.NewReader(doc), []byte("body"), hdr)
 
 	var t1, t2, t3 Target
@@ -66,6 +68,7 @@ func verif_harness_C14_http_independence() {
 	verif_assert(verifHeaderSame(t1.Header, snap1), "C14.http.earlier-target-unchanged-by-later-decode")
 	verif_assert(verifHeaderSame(hdr, hdrSnap), "C14.http.defaults-unchanged")
 	verif_assert(t2.Header["K"][len(t2.Header["K"])-1] == "two" && len(t2.Header["X"]) == 1, "C14.http.second-target-own-values")
+	verif_assert(len(t2.Header["k"]) == 1 && t2.Header["k"][0] == "lower" && len(t2.Header["K"]) == len(hdrSnap["K"])+1, "C14.http.header-keys-keep-their-letter-case-next-to-defaults")
 	snap2 := verifHeaderSnapshot(t2.Header)
 	verif_assert(tr(&t3) == nil, "C14.http.third-target-decodes")
 	verif_assert(verifHeaderSame(t1.Header, snap1) && verifHeaderSame(t2.Header, snap2), "C14.http.earlier-targets-unchanged-by-later-decode")
@@ -82,7 +85,17 @@ func verif_harness_C14_http_independence() {
 // concrete lines (including an empty line, which is skipped).
 //
 //verif:harness unwind=64
-func verif_harness_C14_json_independence() {
+func verif_harness_C14_json_independence() { verifJSONIndependence() }
+
+// The same harness registered for C15: consecutive targets of one JSON
+// targeter are not mixed — a target without headers or body gets the defaults,
+// nothing of the target decoded before it (whatever the targeter recycles
+// between calls; a sync.Pool it creates may hand back the object just Put).
+//
+//verif:harness unwind=64
+func verif_harness_C15_json_targets_not_mixed() { verifJSONIndependence() }
+
+func verifJSONIndependence() {
 	hdr := verifDefaults()
 	hdrSnap := verifHeaderSnapshot(hdr)
 	// the JSON targeter is exercised through its real decoder on concrete lines
